@@ -237,7 +237,17 @@ pub fn check_merge(case: &MergeCase) -> Check {
     expected.sort_by_key(|r| r.azimuth_number()); // std stable sort = ties keep first-then-second order
     let a = Sweep::new(case.elev_a, ra);
     let b = Sweep::new(case.elev_b, rb);
+    // clones of the operands (for small cases): merging the clones must give the same sweep
+    let clones = if case.az_a.len() + case.az_b.len() <= 24 { Some((a.clone(), b.clone())) } else { None };
     let merged = no_panic("Sweep::merge", || a.merge(b))?;
+    if let (Some((ca, cb)), Ok(m)) = (clones, &merged) {
+        let again = no_panic("Sweep::merge", || ca.merge(cb))?.map_err(|e| Fail::new("merge:clones-rejected", format!("{:?}", e)))?;
+        ensure!(
+            again.elevation_number() == m.elevation_number() && again.radials().len() == m.radials().len() && again.radials().iter().zip(m.radials().iter()).all(|(x, y)| same_radial(x, y, true)),
+            "merge:clones-merge-differently",
+            "merging clones of the two sweeps gives a different sweep than merging the originals"
+        );
+    }
     if case.elev_a != case.elev_b {
         ensure!(merged.is_err(), "merge:mismatch-not-rejected", "elevations {} and {} merged without error", case.elev_a, case.elev_b);
         return Ok(());
